@@ -88,7 +88,7 @@ def all_spaces(grid, rng, nsel, thorough):
         for kind in ("DP0", "DP1", "P1", "RWG", "SNC"):
             opts = [(False, True), (True, False), (True, True), (False, False)] if kind in ("P1", "RWG", "SNC") else [(None, None)]
             if not thorough and len(opts) > 1:
-                opts = [opts[i] for i in sorted(rng.choice(4, 2, replace=False))]
+                opts = opts[:2]      # default flags and (boundary dofs, extended support): both produce zero multipliers
             for incl, trunc in opts:
                 sp = G.make_space(grid, kind, se=se, incl=incl, trunc=trunc)
                 yield {"kind": kind, "support_elements": se, "include_boundary_dofs": incl,
@@ -125,6 +125,29 @@ def conflicts(sp):
     return bad
 
 
+def launch_conflicts(sp):
+    """Run the real dense_assembler with a recording kernel (sp as test and trial space) and evaluate the property on the
+    launches themselves: inside one launch no two test elements may share an entry of their local2global rows, and
+    the launches together must contain every support element exactly once."""
+    launches, ok = record_launches(sp, sp)
+    bad = []
+    rows = sp.local2global
+    seen = []
+    for k, la in enumerate(launches):
+        owner = {}
+        for e in la["test"]:
+            for d in set(int(x) for x in rows[e]):
+                if d in owner and owner[d] != e:
+                    bad.append(("launch", k, owner[d], e, d))
+                owner[d] = e
+        seen += la["test"]
+    if sorted(seen) != sorted(int(x) for x in sp.support_elements):
+        bad.append(("launches-do-not-cover-support-once", len(seen), int(sp.number_of_support_elements)))
+    if not ok:
+        bad.append(("kernel-does-not-receive-the-space-arrays",))
+    return bad
+
+
 def main():
     cfg = json.load(sys.stdin)
     thorough = cfg.get("strength") == "thorough"
@@ -132,7 +155,10 @@ def main():
     out = {"cases": [], "launch_cases": [], "failures": [], "scan_evals": 0, "skipped": []}
     parts = cfg.get("parts", ["corr", "scan"])
     if "corr" in parts:
-        grids = [("octahedron", G.octahedron([0, 0, 1, 1, 2, 2, 5, 5])), ("screen2x2", G.screen(2, 2))]
+        # screen3x3: P1 spaces with several dofs AND zero-multiplier entries (on the 2x2 screen there is a single dof, so
+        # a wrong alias target is invisible there -- seeded change C16-1)
+        grids = [("octahedron", G.octahedron([0, 0, 1, 1, 2, 2, 5, 5])), ("screen2x2", G.screen(2, 2)),
+                 ("screen3x3", G.screen(3, 3, [k % 3 for k in range(18)]))]
         if thorough:
             grids.append(("cube12", G.cube12()))
         for gname, grid in grids:
@@ -166,6 +192,16 @@ def main():
             for desc, sp in all_spaces(grid, rng, 8 if thorough else 3, thorough):
                 if sp is None:
                     continue
+                if desc["kind"] in ("P1", "RWG", "DP1", "DUAL1", "BC0"):
+                    out["scan_evals"] += 1
+                    lb = launch_conflicts(sp)
+                    sig = "C16:launch-conflict:%s" % desc["kind"]
+                    if lb and sum(1 for f in out["failures"] if f["signature"] == sig) < 3:
+                        out["failures"].append({
+                            "signature": sig,
+                            "what": "dense_assembler hands test elements that share a global dof to one parallel kernel "
+                                    "launch (or its launches do not cover the support exactly once)",
+                            "data": dict(desc, grid=gname, conflicts=[list(b) for b in lb[:5]])})
                 for suffix, v in variants(sp):
                     out["scan_evals"] += 1
                     bad = conflicts(v)
